@@ -84,6 +84,14 @@ def shard(a):
     name = a['mod']
     core.drive(prop, strategy(name, a['maxlen']), a['n'], (a['seed'], 'C01', name), res,
                shrink_skip=a['known'], shrink=True)
+    optlists = gen.option_lists(name)
+    clocks = [None, '1990-01-01', '2100-12-31'] if name in gen.CLOCK_MODULES else [None]
+    if len(optlists) > 1 or len(clocks) > 1:
+        # every documented option value x valid numbers (and near misses) x clock corner dates: is_valid <=> validate
+        base = st.one_of(gen.valid_numbers(name), gen.valid_numbers(name), gen.edits(gen.valid_numbers(name)))
+        strat = st.fixed_dictionaries({'mod': st.just(name), 'value': base.map(core.enc), 'opts': st.sampled_from(optlists),
+                                       'clock': st.sampled_from(clocks)})
+        core.drive(prop, strat, a['n'], (a['seed'], 'C01', 'options', name), res, shrink_skip=a['known'], shrink=True)
     extra = gen.extra_valid(name)
     if extra is not None:
         # registry-walking generator: reach every branch of the registry the module consumes
